@@ -148,6 +148,11 @@ func (n *LocalNode) RequestToJoin(joiner chord.VNode) (chord.VNode, []chord.VNod
 	}()
 
 	prevPredecessor = n.predecessor
+	if prevPredecessor == nil {
+		// predecessor is unknown (e.g. it failed and checkPredecessor dropped it), so neither the
+		// joiner's position nor the key range to hand over can be verified: let the joiner retry
+		return nil, nil, chord.ErrJoinInvalidState
+	}
 
 	// see issue https://github.com/zllovesuki/specter/issues/23
 	if !chord.Between(prevPredecessor.ID(), joiner.ID(), n.ID(), false) {
